@@ -577,7 +577,7 @@ Definition do_OP_CHECKLOCKTIMEVERIFY (s : vmstate) : vres vmstate :=
   | top :: _ =>
     if (5 <? length top)%nat then VFail else
     vdo '(max_lock_time, s1) <- vm_pop_int 5 s;
-    vdo s2 <- vm_push_int max_lock_time s1;            (* the item is RE-ENCODED *)
+    let s2 := vm_append top s1 in                      (* top_item = vm.stack[-1] ... vm.append(top_item): left as it was *)
     if (max_lock_time <? 0)%Z then VFail else
     let era_max := (LOCKTIME_THRESHOLD <=? max_lock_time)%Z in
     let era_lock_time := (LOCKTIME_THRESHOLD <=? Z.of_N (tc_lock_time ctx))%Z in
@@ -604,7 +604,7 @@ Definition do_OP_CHECKSEQUENCEVERIFY (s : vmstate) : vres vmstate :=
   | top :: _ =>
     if (5 <? length top)%nat then VFail else
     vdo '(sequence, s1) <- vm_pop_int 5 s;
-    vdo s2 <- vm_push_int sequence s1;                 (* the item is RE-ENCODED *)
+    let s2 := vm_append top s1 in                      (* top_item = vm.stack[-1] ... vm.append(top_item): left as it was *)
     if (sequence <? 0)%Z then VFail else
     if negb (N.land (Z.to_N sequence) SEQUENCE_LOCKTIME_DISABLE_FLAG =? 0)%N then VOk s2 else
     if (tc_version ctx <? 2)%N then VFail else
